@@ -115,6 +115,16 @@ def gen_deep_history(w, rng, tier):
         sqls = [c for c in everyone if backends[c] == "sql"]
         if sqls:
             w.do(f"restart {rng.choice(sqls)}")
+    # … and on, through the epoch NUMBERS the abandoned chain had reached: whatever a rollback left behind under those numbers
+    # (an exporter secret of the losing branch, a snapshot) must not be picked up by the winning chain when it gets there
+    if kind in ("fork", "both"):
+        for _ in range(rng.choice([0, 1, 2, 3])):
+            ts += 10
+            commit(rng.choice(everyone), ts, everyone)
+            e = send(rng.choice(everyone))
+            if e is not None:
+                for c in everyone:
+                    w.deliver(c, e)
     W.quiesce(w)
     return w
 
